@@ -241,7 +241,7 @@ fn decorate(stmt: &H, layout: Layout, r: &mut Rng, used: &mut Vec<String>) -> St
 }
 
 fn part_layout(ctx: &Ctx, sink: &mut Sink) {
-    let n = ctx.budget(2500, 60000);
+    let n = ctx.budget(30_000, 400_000);
     let mut used_classes: std::collections::BTreeSet<String> = Default::default();
     for i in 0..n {
         if !ctx.mine(i) {
@@ -361,7 +361,7 @@ fn count_logic(h: &H) -> usize {
 }
 
 fn part_spellings(ctx: &Ctx, sink: &mut Sink) {
-    let n = ctx.budget(3000, 80000);
+    let n = ctx.budget(24_000, 300_000);
     for i in 0..n {
         if !ctx.mine(i) {
             continue;
@@ -446,13 +446,13 @@ fn name_candidates(seed: u64, extra: usize) -> Vec<String> {
     v.retain(|n| {
         is_plain_ident(n)
             && blots_core::functions::BuiltInFunction::from_ident(n).is_none()
-            && !["inputs", "constants", "inf", "infinity"].contains(&n.as_str())
+            && !["inputs", "constants", "inf", "infinity", "zzp", "zzt", "copy_of_it", "q"].contains(&n.as_str())
     });
     v
 }
 
 fn part_names(ctx: &Ctx, sink: &mut Sink) {
-    let names = name_candidates(ctx.seed, ctx.budget(150, 3000) as usize);
+    let names = name_candidates(ctx.seed, ctx.budget(1500, 20_000) as usize);
     let seven = ROut::Ok(RVal::num(7.0));
     // (position class, template, expected)
     let templates: Vec<(&str, &str, ROut)> = vec![
@@ -479,15 +479,15 @@ fn part_names(ctx: &Ctx, sink: &mut Sink) {
         ("record-key", "{N: 1}.N", ROut::Ok(RVal::num(1.0))),
         ("index", "[10, 20, 30, 40, 50, 60, 70, 80][N]", ROut::Ok(RVal::num(80.0))),
         ("parenthesised", "(N)", seven.clone()),
-        ("lambda-body", "(x => N + x)(1)", ROut::Ok(RVal::num(8.0))),
-        ("lambda-arg-value", "(x => x)(N)", seven.clone()),
+        ("lambda-body", "(zzp => N + zzp)(1)", ROut::Ok(RVal::num(8.0))),
+        ("lambda-arg-value", "(zzp => zzp)(N)", seven.clone()),
         ("cond-if", "if N == 7 then 1 else 0", ROut::Ok(RVal::num(1.0))),
         ("cond-then", "if true then N else 0", seven.clone()),
         ("cond-else", "if false then 0 else N", seven.clone()),
-        ("do-statement", "do {\n  t = N\n  return t\n}", seven.clone()),
+        ("do-statement", "do {\n  zzt = N\n  return zzt\n}", seven.clone()),
         ("do-return", "do {\n  return N\n}", seven.clone()),
-        ("via-left", "[N] via (x => x + 1)", ROut::Ok(RVal::List(vec![RVal::num(8.0)]))),
-        ("into-left", "N into (x => x)", seven.clone()),
+        ("via-left", "[N] via (zzp => zzp + 1)", ROut::Ok(RVal::List(vec![RVal::num(8.0)]))),
+        ("into-left", "N into (zzp => zzp)", seven.clone()),
         ("coalesce-left", "N ?? 1", seven.clone()),
         ("coalesce-right", "null ?? N", seven.clone()),
         ("spread", "[...[N]][0]", seven.clone()),
